@@ -1631,6 +1631,16 @@ def run(tier):
               'no function of the tree core that implements equality, hashing, copying, pickling or traversal recurses over the nesting depth (directly, through helpers, generators, tuple comparison, deepcopy or the generic pickler)',
               None,
               'equality, copies, pickles and traversals stop agreeing with the structure (they raise) exactly for the deeply nested inputs the explicit stacks were written for')
+    # the worker works on the tree that was sent (shared with C05.R4)
+    from . import c05 as _c05
+    sub05 = Check('C05', 'other', tier, [], [])
+    chk.guard(_c05.rule_r4, sub05, prog)
+    Check.restrict(sub05, lambda wh, what: not str(what).startswith(
+        ('Result(', '(False,', '(True,')))
+    chk.adopt('C12.R10', 'a worker unpickles what it was sent: its cache of '
+              'the unpickled input is keyed by a digest of the whole pickle, '
+              'so the tree it works on equals the tree the main process '
+              'sent (shared with C05.R4)', sub05)
     extra = None
     if tier == 'thorough':
         from .. import selftest
